@@ -39,6 +39,7 @@ class BaseRandomLineAccessFile(collections.abc.Sequence, Generic[C], ABC):
         self.path_to = path_to
         self._dirty = False
         self._lines: MutableSequence[Union[int, str]] = [] if lines is None else lines
+        self._sequential_index = lines is None  # a caller-supplied index may be a subset or permutation of lines
 
     @property
     def dirty(self) -> bool:
@@ -73,6 +74,10 @@ class BaseRandomLineAccessFile(collections.abc.Sequence, Generic[C], ABC):
         if self._dirty:
             for n in range(len(self)):
                 yield self._get_item(n)
+        elif not self._sequential_index:
+            # the index was provided by a caller, so the lines do not have to follow each other in the file
+            for n in range(len(self)):
+                yield self._read_line(n)
         else:
             self._file_seek(0)
             for n in range(len(self)):
@@ -197,6 +202,7 @@ class RandomLineAccessFile(BaseRandomLineAccessFile[str]):
         super().__init__(path_to)
         self.file = None
         self._lines = line_offsets
+        self._sequential_index = line_offsets is None
         if line_offsets is None:
             self._index_file()
         elif isinstance(line_offsets, str):
